@@ -160,17 +160,21 @@ class EscapeAnalysis:
         self.entries.add((rel, f.name))
         return self.analyse(rel, f, kinds, "none")
 
-    def analyse(self, rel: str, func: ast.AST, kinds: Dict[str, str], inherited: str, origins: Optional[Dict[str, str]] = None) -> str:
+    def analyse(self, rel: str, func: ast.AST, kinds: Dict[str, str], inherited: str, origins: Optional[Dict[str, str]] = None,
+                fbind: Optional[Dict[str, tuple]] = None) -> str:
+        """``fbind``: parameters of ``func`` that are bound (at this call) to repository functions - calls through them are followed."""
+        fbind = dict(fbind or {})
         origins = dict(origins or {})
         for nm, k in kinds.items():
             origins.setdefault(nm, "event" if k == EVENT else f"<arg {nm}>")
-        key = (rel, func.name, tuple(sorted(kinds.items())), inherited, tuple(sorted(origins.items())))
+        key = (rel, func.name, tuple(sorted(kinds.items())), inherited, tuple(sorted(origins.items())), tuple(sorted((k, v[1].name) for k, v in fbind.items())))
         if key in self._memo:
             return self._memo[key]
         if key in self._active:
             return SAFE
         self._active.add(key)
         w = _FuncWalker(self, rel, func, dict(kinds), inherited, origins)
+        w.fbind = fbind
         ret = w.run()
         self._active.discard(key)
         self._memo[key] = ret
@@ -194,6 +198,7 @@ class EscapeAnalysis:
 class _FuncWalker:
     def __init__(self, an: EscapeAnalysis, rel: str, func: ast.AST, env: Dict[str, str], inherited: str, origins: Optional[Dict[str, str]] = None):
         self.origin: Dict[str, str] = dict(origins or {})
+        self.fbind: Dict[str, tuple] = {}
         self._locals = None
         self.an = an
         self.rel = rel
@@ -497,7 +502,19 @@ class _FuncWalker:
             return k
         if isinstance(e, ast.IfExp):
             self.ev(e.test, truth=True)
-            return worst(self.ev(e.body), self.ev(e.orelse))
+            s0 = self._snap()
+            for nm in _isinstance_names(e.test):
+                if self.env.get(nm) in (HOSTILE, EVENT):
+                    self.env[nm] = _narrow_kind(e.test, nm)
+            kb = self.ev(e.body)
+            self._restore(s0)
+            if isinstance(e.test, ast.UnaryOp) and isinstance(e.test.op, ast.Not):
+                for nm in _isinstance_names(e.test.operand):
+                    if self.env.get(nm) in (HOSTILE, EVENT):
+                        self.env[nm] = _narrow_kind(e.test, nm)
+            ko = self.ev(e.orelse)
+            self._restore(s0)
+            return worst(kb, ko)
         if isinstance(e, ast.NamedExpr):
             k = self.ev(e.value)
             self.bind(e.target, k)
@@ -608,7 +625,7 @@ class _FuncWalker:
                 if anyh and not (name in ("list", "tuple", "len", "dict", "iter") and all(k != HOSTILE for k in allk)):
                     self.site(where, "convert", f"{name}() of event-derived value in {src(e)}")
                 return TEXT if name in an.TEXT_FUNCS else SAFE
-            r = an.resolve(name, self.func, self.rel)
+            r = self.fbind.get(name) or an.resolve(name, self.func, self.rel)
             if r is not None:
                 return self.call_repo(r, e, argk, kwk)
             if name in self.env and self.env[name] == SAFE and isinstance(an.ctx.mod(self.rel).find(self.qual + "." + name), (ast.FunctionDef,)):
@@ -680,8 +697,14 @@ class _FuncWalker:
             if name in kinds:
                 origins[name] = ("event" if kinds[name] == EVENT else None) or self.origin_of(a_) or "<value>"
         self.an.callers.setdefault((rel, fn.name), set()).add((self.rel, self.func.name))
+        fbind = {}
+        for name, a_ in list(zip(pos, e.args)) + [(k.arg, k.value) for k in e.keywords if k.arg]:
+            if isinstance(a_, ast.Name) and self.env.get(a_.id, SAFE) == SAFE:
+                tgt = self.fbind.get(a_.id) or self.an.resolve(a_.id, self.func, self.rel)
+                if tgt is not None:
+                    fbind[name] = tgt
         lvl = self.level(e)
-        return self.an.analyse(rel, fn, kinds, lvl, origins)
+        return self.an.analyse(rel, fn, kinds, lvl, origins, fbind)
 
 
 def _narrow_kind(test, name) -> str:
@@ -1197,10 +1220,49 @@ class Interp:
         self.budget = budget
         self.log: List[tuple] = []
         self._yields: List[list] = []
+        self._lazy_active: set = set()
 
     # ---- setup ------------------------------------------------------------------------------------------------
+    STDLIB_OK = ("functools", "itertools", "contextlib", "collections", "collections.abc", "string", "json", "uuid", "typing", "operator", "math", "abc", "enum", "dataclasses")
+
+    def _lazy_global(self, name):
+        """A module-level name of a loaded module that was not bound eagerly: a table / constant (evaluated now, in module
+        scope) or an import from a whitelisted stdlib module (the real object)."""
+        import importlib
+        for mod in getattr(self, "_modules", []):
+            for n in mod.tree.body:
+                if isinstance(n, ast.ImportFrom) and n.module in self.STDLIB_OK and n.level == 0:
+                    for a in n.names:
+                        if (a.asname or a.name) == name:
+                            return True, getattr(importlib.import_module(n.module), a.name)
+                elif isinstance(n, ast.Import):
+                    for a in n.names:
+                        if (a.asname or a.name.split(".")[0]) == name and a.name.split(".")[0] in self.STDLIB_OK:
+                            return True, importlib.import_module(a.name if a.asname else a.name.split(".")[0])
+        for mod in getattr(self, "_modules", []):
+            for n in mod.tree.body:
+                tg = None
+                if isinstance(n, ast.Assign) and len(n.targets) == 1 and isinstance(n.targets[0], ast.Name):
+                    tg, val = n.targets[0].id, n.value
+                elif isinstance(n, ast.AnnAssign) and isinstance(n.target, ast.Name) and n.value is not None:
+                    tg, val = n.target.id, n.value
+                if tg == name:
+                    key = ("lazy", name)
+                    if key in self._lazy_active:
+                        raise AnalysisError(f"interp: recursive module-level definition of {name}")
+                    self._lazy_active.add(key)
+                    try:
+                        return True, self.ev(val, [])
+                    finally:
+                        self._lazy_active.discard(key)
+        return False, None
+
     def load(self, mod, only=None):
         """Register the top-level functions / classes of a parsed module as interpreted values."""
+        if not hasattr(self, "_modules"):
+            self._modules = []
+        if mod not in self._modules:
+            self._modules.append(mod)
         for n in mod.tree.body:
             if isinstance(n, (ast.FunctionDef, ast.AsyncFunctionDef)) and (only is None or n.name in only):
                 self.globals[n.name] = Func(self, n, [], n.name)
@@ -1248,6 +1310,10 @@ class Interp:
                 return s[name]
         if name in self.globals:
             return self.globals[name]
+        found, v = self._lazy_global(name)
+        if found:
+            self.globals[name] = v
+            return v
         raise AnalysisError(f"interp: name {name} is not modelled")
 
     # ---- calls ------------------------------------------------------------------------------------------------------
@@ -1400,6 +1466,8 @@ class Interp:
             finally:
                 if st.finalbody:
                     self.block(st.finalbody, scopes)
+        elif isinstance(st, ast.With):
+            self._with(st, 0, scopes)
         elif isinstance(st, ast.Assert):
             if not self.ev(st.test, scopes):
                 raise AssertionError(src(st.test))
@@ -1415,6 +1483,30 @@ class Interp:
             pass
         else:
             raise AnalysisError(f"interp: statement not modelled: {src(st)[:60]}")
+
+    def _with(self, st, i, scopes):
+        if i == len(st.items):
+            self.block(st.body, scopes)
+            return
+        it = st.items[i]
+        mgr = self.ev(it.context_expr, scopes)
+        if isinstance(mgr, Obj):
+            enter, leave = self.getattr_(mgr, "__enter__"), self.getattr_(mgr, "__exit__")
+        else:
+            enter, leave = mgr.__enter__, mgr.__exit__
+        v = enter()
+        if it.optional_vars is not None:
+            self.assign(it.optional_vars, v, scopes)
+        try:
+            self._with(st, i + 1, scopes)
+        except (_Signal, AnalysisError, Nonterminating):
+            leave(None, None, None)
+            raise
+        except BaseException as e:  # noqa: B902
+            if not leave(type(e), e, e.__traceback__):
+                raise
+        else:
+            leave(None, None, None)
 
     @staticmethod
     def _matches(e, t):
@@ -1479,7 +1571,8 @@ class Interp:
             if name in ("__name__", "__qualname__"):
                 return (o.name if isinstance(o, Func) else o.func.name)
             raise AnalysisError(f"interp: attribute {name} of a function")
-        if name.startswith("__") and name not in ("__name__", "__class__", "__getitem__", "__contains__", "__len__", "__iter__", "__dict__", "__module__"):
+        if name.startswith("__") and name not in ("__name__", "__class__", "__getitem__", "__contains__", "__len__", "__iter__", "__dict__", "__module__",
+                                                   "__enter__", "__exit__", "__getstate__", "__setstate__", "__new__", "__qualname__"):
             raise AnalysisError(f"interp: dunder attribute {name} on a native value")
         return getattr(o, name)
 
